@@ -127,10 +127,10 @@ int main(int argc, char** argv) {
   }
   {
     Sub s; s.name = "c06.random"; s.property = "C06"; s.instances = 1; s.n_quick = 50000; s.n_thorough = 2000000; s.run = c06_random;
-    s.gen = [](int) { return rc::gen::mapcat(irange(0, 12), [](int n) { return rc::gen::map(rc::gen::tuple(rc::gen::container<std::vector<int>>((size_t)(14 + 7 * n), irange(-9, 9)), irange(0, 7), irange(0, 3)),
+    s.gen = [](int) { return rc::gen::mapcat(irange(0, 12), [](int n) { return rc::gen::map(rc::gen::tuple(rc::gen::container<std::vector<int>>((size_t)(14 + 7 * n), rc::gen::oneOf(irange(-9, 9), irange(-9, 9), irange(-128, 127))), irange(0, 7), irange(0, 3)),
         [=](const std::tuple<std::vector<int>, int, int>& t) { Case c; for (int x : std::get<0>(t)) c.i.push_back(x); for (int i = 0; i < std::get<1>(t); i++) c.i[(size_t)(7 + i)] = c.i[(size_t)i];
           if (std::get<2>(t) == 0) for (int k = 1; k < n; k++) for (int i = 0; i < 7; i++) if ((k + i) % 2) c.i[(size_t)(14 + 7 * k + i)] = c.i[(size_t)(14 + i)]; return c; }); }); };
-    s.rule = "random exponent tuples in [-9,9]^7 with forced ties in leading exponents: printing, streaming, six operators, hash, collections of 0..12 sets in std::set / std::unordered_set; non-trivial: tie length in 1..6";
+    s.rule = "random exponent tuples in [-9,9]^7 (two thirds) and over the whole int8 range (multi-digit exponents) with forced ties in leading exponents: printing, streaming, six operators, hash, collections of 0..12 sets in std::set / std::unordered_set; non-trivial: tie length in 1..6";
     subs.push_back(s);
   }
   {
